@@ -168,7 +168,32 @@ func (vc *FuncVC) execCall(st *State, reach Term, ins *ssa.Call) {
 	}
 	name := contractName(callee)
 	if fc := vc.W.spec.Funcs[name]; fc != nil {
-		vc.applyContract(st, reach, ins, callee, fc)
+		// A callee whose contract no longer fits its signature (a parameter was renamed or dropped) cannot be used: the
+		// problem is reported, the call is treated like one to code without a contract, and the caller's own obligations
+		// are still generated (seed A14 changed fmtE's parameters: Append lost all its obligations behind the error).
+		func() {
+			defer func() {
+				if r := recover(); r != nil {
+					msg := fmt.Sprint(r)
+					if !strings.HasPrefix(msg, "spec:") {
+						panic(r)
+					}
+					note := fmt.Sprintf("%s: the contract of %s cannot be applied at %s (%s): the call is treated as one to code without a contract", vc.name, name, vc.pos(ins.Pos()), msg)
+					seen := false
+					for _, s := range vc.Stale {
+						if s == note {
+							seen = true
+						}
+					}
+					if !seen {
+						vc.Stale = append(vc.Stale, note)
+					}
+					vc.havocAll(st)
+					vc.vals[ins] = vc.freshVal("call_"+callee.Name(), rt)
+				}
+			}()
+			vc.applyContract(st, reach, ins, callee, fc)
+		}()
 		return
 	}
 	if callee.Pkg != vc.W.spkg {
@@ -326,11 +351,56 @@ func (vc *FuncVC) execLibrary(st *State, reach Term, ins *ssa.Call, callee *ssa.
 			vc.decls = append(vc.decls, "(declare-fun "+fname+" (Int Int) Int)")
 		}
 		hp := Eq(app(SInt, fname, vc.scalar(args[0]), vc.scalar(args[1])), IntLit(1))
+		if c, isC := args[1].(*ssa.Const); isC && c.Value != nil && c.Value.Kind() == constant.String && len(constant.StringVal(c.Value)) <= 32 {
+			// a constant prefix: exact
+			vc.assume(Eq(hp, vc.strHasPrefixConst(vc.scalar(args[0]), constant.StringVal(c.Value))))
+		}
 		// a string is at least as long as any prefix of it
 		vc.assume(Implies(hp, Ge(vc.strLen(vc.scalar(args[0])), vc.strLen(vc.scalar(args[1])))))
 		vc.vals[ins] = &Val{T: hp, GoType: rt}
 		return
-	case "strings.IndexByte", "strings.Index", "strings.IndexRune", "strings.LastIndexByte":
+	case "strings.IndexByte":
+		// the first position holding the byte, or -1 when no position does
+		code, b := vc.scalar(args[0]), vc.scalar(args[1])
+		r := vc.fresh("stridx", SInt)
+		n := vc.strLen(code)
+		vc.assume(And(Le(IntLit(-1), r), Lt(r, n)))
+		vc.assume(Implies(Ge(r, IntLit(0)), Eq(vc.strByte(code, r), b)))
+		vc.assume(vc.strSegFactP(code, IntLit(0), Ite(Ge(r, IntLit(0)), r, n), func(t Term) Term { return Ne(vc.strByte(code, t), b) }))
+		vc.vals[ins] = &Val{T: r, GoType: rt}
+		return
+	case "strings.ToLower":
+		// For a text of ASCII bytes only: same length, upper-case letters mapped to lower case, everything else kept.
+		// (Anything else - multi-byte runes, invalid UTF-8 - may change the length: nothing is said then.)
+		code := vc.scalar(args[0])
+		r := vc.freshVal("lower", rt)
+		n := vc.strLen(code)
+		ascii := vc.strSegFactP(code, IntLit(0), n, func(t Term) Term { return Lt(vc.strByte(code, t), IntLit(128)) })
+		lower := func(b Term) Term { return Ite(And(Le(IntLit(65), b), Le(b, IntLit(90))), Add(b, IntLit(32)), b) }
+		vc.assume(Implies(ascii, And(Eq(vc.strLen(r.T), n), vc.strSegFact(r.T, IntLit(0), n, func(t Term) Term { return lower(vc.strByte(code, t)) }))))
+		vc.vals[ins] = r
+		return
+	case "strconv.ParseInt":
+		// base 10, a constant bit size: succeeds exactly on a numeral (optional sign, digits) whose value fits, and returns it
+		if bc, ok := args[1].(*ssa.Const); ok && bc.Value != nil && bc.Int64() == 10 {
+			if sc, ok := args[2].(*ssa.Const); ok && sc.Value != nil && sc.Int64() >= 8 && sc.Int64() <= 64 {
+				vc.numeralTheory()
+				code := vc.scalar(args[0])
+				v := vc.fresh("parsed", SInt)
+				er := vc.fresh("parseerr", SInt)
+				lim := pow2big(int(sc.Int64() - 1))
+				isnum := Eq(app(SInt, "uf_isnum_1", code), IntLit(1))
+				nv := app(SInt, "uf_numval_1", code)
+				okc := And(isnum, Le(Neg(BigLit(lim)), nv), Lt(nv, BigLit(lim)))
+				vc.assume(Eq(Eq(er, IntLit(0)), okc))
+				vc.assume(Implies(okc, Eq(v, nv)))
+				vc.assume(And(Le(Neg(BigLit(pow2big(63))), v), Lt(v, BigLit(pow2big(63)))))
+				vc.vals[ins] = &Val{Kind: vTuple, Elems: []*Val{{T: v, GoType: types.Typ[types.Int64]}, {T: er}}, GoType: rt}
+				vc.libHavoc(name)
+				return
+			}
+		}
+	case "strings.Index", "strings.IndexRune", "strings.LastIndexByte":
 		// -1, or a position inside the string
 		r := vc.fresh("stridx", SInt)
 		vc.assume(And(Le(IntLit(-1), r), Lt(r, vc.strLen(vc.scalar(args[0])))))
